@@ -162,7 +162,7 @@ def _gen_species(rng, cls, name, phase, units=None):
         sp = SG.gen_nasa9(rng, name=name, phase='S', elements=el, lo=80.0, hi=4000.0)
     else:
         sp = SG.gen_shomate(rng, name=name, phase='S', elements=el, lo=80.0, hi=4000.0,
-                            units=units or rng.choice(['J/mol/K', 'J/mol/K', 'cal/mol/K', 'kJ/mol/K', 'eV/K']))
+                            units=units or rng.choice(['J/mol/K', 'J/mol/K', 'cal/mol/K']))
     sp['phase'] = phase
     return sp
 
@@ -541,13 +541,13 @@ class _Eval:
                 ref = np.ravel(np.asarray(ref, dtype=float))
                 dflt = ctx.call('M3', dict(mech, P='default'), g, T=T_in, **_kwargs(cond, None))
                 if dflt is not core.NOVALUE:
-                    ctx.close('M3', np.ravel(np.asarray(dflt, dtype=float)), ref, 1e-12, dict(mech, P='default'))
+                    ctx.close('M3', np.ravel(np.asarray(dflt, dtype=float)), ref, 1e-10, dict(mech, P='default'))
                 for P in Ps:
                     v = ctx.call('M3', dict(mech, P='given'), g, T=T_in, **_kwargs(cond, P))
                     if v is core.NOVALUE:
                         continue
                     shift = sign * math.log(P) if carries else 0.0
-                    ctx.close('M3', np.ravel(np.asarray(v, dtype=float)), ref + shift, 1e-11,
+                    ctx.close('M3', np.ravel(np.asarray(v, dtype=float)), ref + shift, 1e-10,
                               dict(mech, P='given', carries_adj=carries), P=P)
 
 
@@ -688,8 +688,12 @@ def run_case(spec, ctx):
     ev.m3(obj, hist, spec['Ts'], spec['arrays'])
     # ---- history
     disabled = spec['add_gas_P_adj'] is False and is_gas(phase)
+    vias = []
     for k, op in enumerate(spec['history']):
-        hist = {'history': 'copied' if op in ('copy', 'deepcopy') else 'reloaded', 'via': op}
+        if op in ('from_dict', 'json') and op not in vias:
+            vias.append(op)
+        # label = the strongest thing that has happened to the object so far
+        hist = {'history': 'reloaded', 'via': '+'.join(sorted(vias))} if vias else {'history': 'copied', 'via': op}
         m2 = dict(base, clause='M2', **hist)
         new = _reload(ctx, obj, op, m2)
         if new is core.NOVALUE:
